@@ -35,16 +35,23 @@ type vLogImpl struct {
 	opts    Options
 	readers map[string]*vLiveReader
 	hook    *vHookLogger
+	rolled  bool // appendroll: the clean ran inside the roll (else after the append)
 }
 
 // vHookLogger is the commit log's logger: it runs `fire` once, at the first debug message
 // that marks the start of a clean ("Cleaning log …" of the retention cleaner, or "Compacting
 // log …"), i.e. right after Clean() took its snapshot of the segment list.
 type vHookLogger struct {
-	fire func()
+	fire     func()
+	fireRoll func() // run once, at the debug message of a segment roll in progress ("Appending new log segment …")
 }
 
 func (h *vHookLogger) Debugf(f string, a ...interface{}) {
+	if h.fireRoll != nil && strings.HasPrefix(f, "Appending new log segment") {
+		fn := h.fireRoll
+		h.fireRoll = nil
+		fn()
+	}
 	if h.fire != nil && (strings.HasPrefix(f, "Cleaning log") || strings.HasPrefix(f, "Compacting log")) {
 		fn := h.fire
 		h.fire = nil
@@ -380,6 +387,19 @@ func (v *vLogImpl) exec(line string) (out string) {
 			return "err " + vErrEnum(err) + " | " + v.state()
 		}
 		return "ok " + vOffs(offs) + " | " + v.state()
+	case "appendroll":
+		// implementation-only: `appendroll <ttl> <epoch> <ts> <msgs…>` = an append during whose segment roll a complete
+		// retention clean runs (after the roll has started, before the new segment is published). For the model this is
+		// `clean <ttl>` followed by the append; when the append does not roll, the clean runs after it instead.
+		v.rolled = false
+		clean := func() string { return v.execMore([]string{"clean", f[1]}) }
+		v.hook.fireRoll = func() { v.rolled = true; clean() }
+		out := v.exec("append " + strings.Join(f[2:], " "))
+		v.hook.fireRoll = nil
+		if !v.rolled {
+			return clean()
+		}
+		return out
 	case "truncate":
 		o, _ := strconv.ParseInt(f[1], 10, 64)
 		if err := v.l.Truncate(o); err != nil {
@@ -447,16 +467,34 @@ func vRunBoth(t testing.TB, model *vModel, prog []string) (impl, mod []string) {
 	v := &vLogImpl{t: t}
 	defer v.close()
 	impl = make([]string, len(prog))
-	lines := make([]string, len(prog))
+	var lines []string
+	last := make([]int, len(prog)) // index of the model line whose answer belongs to op i
 	for i, op := range prog {
 		impl[i] = v.exec(op)
-		lines[i] = "log " + op
-		if op == "reopenx" {
+		switch {
+		case op == "reopenx":
 			// implementation-only variant of `reopen` (index files damaged before the restart): for the model a reopen
-			lines[i] = "log reopen"
+			lines = append(lines, "log reopen")
+		case strings.HasPrefix(op, "appendroll "):
+			f := strings.Fields(op)
+			cl, ap := "log clean "+f[1], "log append "+strings.Join(f[2:], " ")
+			if v.rolled {
+				lines = append(lines, cl, ap)
+			} else {
+				lines = append(lines, ap, cl)
+			}
+		default:
+			lines = append(lines, "log "+op)
+		}
+		last[i] = len(lines) - 1
+	}
+	all := model.Ask(lines)
+	mod = make([]string, len(prog))
+	for i := range prog {
+		if last[i] < len(all) {
+			mod[i] = all[last[i]]
 		}
 	}
-	mod = model.Ask(lines)
 	return
 }
 
